@@ -74,6 +74,10 @@ class Findings:
                 self.collect_wf(oi, seen_issues, nospace, name, o)
                 return
             self.collect_wf(oi, seen_issues, nospace, name, o)
+            if nospace and any(i.startswith("OrphanLfn") for i in jd.wf.get(oi, [])):
+                # the orphan run stays in the directory: what is decoded next to it is not judged any further
+                self.stop_at = oi
+                return
 
     def collect_wf(self, oi, seen, nospace, name, o):
         jd = self.jd
